@@ -532,6 +532,14 @@ func extTestsIn(rel string, w *strings.Builder, acc *[]string) {
 		})
 		if len(lits) > 0 {
 			sort.Strings(lits)
+			// a set: a function may test the extension more than once
+			uniq := lits[:0]
+			for i, l := range lits {
+				if i == 0 || l != lits[i-1] {
+					uniq = append(uniq, l)
+				}
+			}
+			lits = uniq
 			*acc = append(*acc, "("+leanStr(rel+":"+fd.Name.Name)+", "+leanStrList(lits)+")")
 		}
 	}
